@@ -162,7 +162,30 @@ fn gen_data<F: Fl>(rng: &mut Rng, n: usize, class: usize) -> Vec<F> {
 
 fn gen_positive<F: Fl>(rng: &mut Rng, n: usize) -> Vec<F> {
     let m = if F::IS32 { 4 } else { 8 };
-    match rng.below(4) {
+    match rng.below(7) {
+        6 if n >= 4 => {
+            // values of order one except two tiny and two huge ones whose product is of order one again: a running
+            // product would dip into the subnormal range of the element type (or overflow) on the way
+            let (lo, hi) = if F::IS32 { (-22.0, -19.0) } else { (-160.0, -152.0) };
+            let mut v: Vec<f64> = (0..n).map(|_| 0.5 + rng.unit() * 1.5).collect();
+            let mut pos: Vec<usize> = (0..n).collect();
+            rng.shuffle(&mut pos);
+            let mut four = [pos[0], pos[1], pos[2], pos[3]];
+            if rng.chance(0.7) {
+                four.sort_unstable();
+            }
+            let (e1, e2) = (lo + rng.unit() * (hi - lo), lo + rng.unit() * (hi - lo));
+            v[four[0]] = 10f64.powf(e1);
+            v[four[1]] = 10f64.powf(e2);
+            v[four[2]] = 10f64.powf(-e1 + rng.unit());
+            v[four[3]] = 10f64.powf(-e2 - rng.unit());
+            v.into_iter().map(F::of).collect()
+        }
+        4 | 5 | 6 => {
+            // independent magnitudes over most of the exponent range (reciprocals and their sum stay finite)
+            let a = if F::IS32 { 25.0 } else { 250.0 };
+            (0..n).map(|_| F::of(10f64.powf(rng.unit() * 2.0 * a - a))).collect()
+        }
         0 => (0..n).map(|_| F::of(0.1 + rng.unit() * 10.0)).collect(),
         1 => (0..n).map(|_| F::of(10f64.powf(rng.unit() * 2.0 * m as f64 - m as f64))).collect(),
         2 => {
@@ -270,10 +293,47 @@ fn summary_case<F: Fl>(rng: &mut Rng, acc: &mut Acc, prop: &str) {
     let nd = shape.len();
     let n: usize = shape.iter().product();
     let dclass = rng.below(9);
-    let data: Vec<F> = gen_data::<F>(rng, n, dclass);
+    let mut data: Vec<F> = gen_data::<F>(rng, n, dclass);
     let wclass = rng.below(5);
-    let wfull: Vec<F> = gen_weights::<F>(rng, n, wclass);
-    let waxis: Vec<F> = gen_weights::<F>(rng, shape[axis], wclass);
+    let mut wfull: Vec<F> = gen_weights::<F>(rng, n, wclass);
+    let mut waxis: Vec<F> = gen_weights::<F>(rng, shape[axis], wclass);
+    if prop == "C07" {
+        // (a) the whole data set rescaled by a power of ten far from one (deviations of 1e3..1e8 / 1e-3..1e-8 in f32,
+        //     1e20..1e70 / 1e-20..1e-70 in f64): the low-order moments and their ratios stay in range
+        if rng.chance(0.15) {
+            let e = if F::IS32 { rng.range(3, 9) } else { rng.range(20, 71) } as i32 * if rng.chance(0.5) { 1 } else { -1 };
+            let sc = F::of(10f64.powi(e));
+            for x in data.iter_mut() {
+                *x = *x * sc;
+            }
+            acc.count("data_rescaled_by_power_of_ten");
+        }
+        // (b) a late observation far from the rest whose weight is below half an ulp of the running total: it does
+        //     not change the total, but its contribution to the sum of squares is far from negligible
+        if rng.chance(0.12) {
+            let u = if F::IS32 { 2f64.powi(-24) } else { 2f64.powi(-53) };
+            let spread = F::of(*rng.pick(&[1.0e4, 3.0e3, 1.0e5]));
+            if n >= 3 {
+                let j = n - 1 - rng.below(n / 2);
+                let tot = wfull.iter().fold(F::of(0.0), |a, &b| a + b);
+                wfull[j] = tot * F::of(u * 0.3);
+                data[j] = data[j] + spread * (F::of(1.0) + data[j].abs());
+            }
+            let m = shape[axis];
+            if m >= 3 {
+                let j = m - 1 - rng.below(m / 2);
+                let tot = waxis.iter().fold(F::of(0.0), |a, &b| a + b);
+                waxis[j] = tot * F::of(u * 0.3);
+                // every lane's j-th observation moves far away
+                for l in lanes_of(&shape, axis) {
+                    let i = l[j];
+                    data[i] = data[i] + spread * (F::of(1.0) + data[i].abs());
+                }
+            }
+            acc.count("tiny_weight_on_a_far_observation");
+        }
+    }
+    let (data, wfull, waxis) = (data, wfull, waxis);
     let (ld, lw, lw1) = (rlay(rng, nd), rlay(rng, nd), rlay(rng, 1));
     let ed = Embedded::new(&shape, &data, ld.clone());
     let ew = Embedded::new(&shape, &wfull, lw.clone());
@@ -710,6 +770,19 @@ fn cov_case<F: Fl>(rng: &mut Rng, acc: &mut Acc) {
             data[no + k] = F::of(a * data[k].to_f64().unwrap() + b);
         }
         acc.count("exactly_collinear_pairs");
+    }
+    // weakly correlated variables: x_k = k - (no-1)/2 (odd), z_k = x_k^2 (even, exactly orthogonal to x after
+    // centring), y = z + 2^-e * x: cov(x, y) = 2^-e var(x) exactly, |rho| of the order 1e-9..1e-13 - tiny but far
+    // above the roundoff of the definition
+    if nv >= 2 && no >= 3 && !F::IS32 && rng.chance(0.08) {
+        let e = rng.range(30, 44) as i32;
+        let half = (no - 1) as f64 / 2.0;
+        for k in 0..no {
+            let x = k as f64 - half;
+            data[k] = F::of(x);
+            data[no + k] = F::of(x * x + 2f64.powi(-e) * x);
+        }
+        acc.count("weakly_correlated_pairs");
     }
     // integer-valued matrices whose TOTAL sum is exactly zero although the variable means are not (pairs x, -x + small)
     if nv >= 2 && rng.chance(0.1) {
